@@ -19,14 +19,27 @@ import (
 
 // FakeHAProxy answers every admin and health request with 200 and remembers the calls.
 type FakeHAProxy struct {
-	mu    sync.Mutex
-	Calls []string
+	mu     sync.Mutex
+	Calls  []string
+	failIn int // > 0: the failIn-th admin call from now is refused with 503
 }
+
+// FailNext arms (k > 0) or disarms (k = 0) the refusal of the k-th admin call from now.
+func (f *FakeHAProxy) FailNext(k int) { f.mu.Lock(); f.failIn = k; f.mu.Unlock() }
 
 func (f *FakeHAProxy) ServeHTTP(w http.ResponseWriter, r *http.Request) {
 	f.mu.Lock()
 	f.Calls = append(f.Calls, r.Method+" "+r.URL.Path)
+	refuse := false
+	if r.Method != http.MethodGet && f.failIn > 0 {
+		f.failIn--
+		refuse = f.failIn == 0
+	}
 	f.mu.Unlock()
+	if refuse {
+		w.WriteHeader(http.StatusServiceUnavailable)
+		return
+	}
 	w.WriteHeader(http.StatusOK)
 	if r.Method == http.MethodGet {
 		// health check: not empty - the engine reads the body and treats the EOF of an empty one as a failed check
